@@ -300,6 +300,21 @@ def checkStep (e : Env) (pre : Sys) (op : Op) (res : Res) (post : Sys) (origin :
           [("C16", s!"clause=baseIsLatest cls={if base.length < md.commit.length then "partial-base" else "none"} rec=meta{m.p.dataId.take 8}")]
       | none => [])
    | _, _ => []) ++
+  -- C16: the version history of a model only grows at its end: an accepted step appends one entry, or (completion of a
+  -- force-push order) replaces the latest entry — every earlier entry stays where it was
+  (if res = .ok then
+     post.st.metas.filterMap (fun m' =>
+       match pre.st.getMeta m'.dataId with
+       | none => none
+       | some m =>
+         let a := m.commits
+         let b := m'.commits
+         let forcePush := match op with
+           | .complete _ _ oid _ _ _ => (match pre.st.getOrder oid with | some o => o.operation = 2 && o.dataId = m.dataId | none => false)
+           | _ => false
+         if b = a || (b.length = a.length + 1 && b.dropLast = a) || (forcePush && b.length = a.length && b.dropLast = a.dropLast) then none
+         else some ("C16", s!"clause=historyLinear cls=none rec=meta{m.dataId.take 8}:{a.length}->{b.length}"))
+   else []) ++
   -- C16: identifiers are never reused and grow with creation order
   (if post.st.getOrderCount < pre.st.getOrderCount || post.st.shardCount < pre.st.shardCount then [("C16", "clause=countersMonotone cls=none")] else []) ++
   (let newOrders := post.st.orders.filter (fun o => (pre.st.getOrder o.id).isNone)
@@ -461,6 +476,7 @@ def checkStep (e : Env) (pre : Sys) (op : Op) (res : Res) (post : Sys) (origin :
     let newShards := post.st.shards.filter (fun sh => (pre.st.getShard sh.id).isNone)
     let chosenBySelection := match op with
       | .store _ => true
+      | .ready .. => true
       | .end_ => true
       | _ => false
     if !chosenBySelection then [] else
@@ -471,16 +487,26 @@ def checkStep (e : Env) (pre : Sys) (op : Op) (res : Res) (post : Sys) (origin :
       let dup := !(sps.eraseDups.length = sps.length) || sps.any (fun a => old.contains a)
       let requested : Int := match op with
         | .store m => m.p.replica
+        | .ready .. => ((pre.st.getOrder oid).map (·.replica)).getD 0
         | _ => ((pre.st.shards.filter (fun sh => sh.orderId = oid && sh.status = ShardWaiting)).length : Int)
       let over := (mine.length : Int) > requested
       -- an update of stored data first re-uses the providers that already hold it: those are not newly chosen
       let holders : List Addr := match op with
         | .store m => (findSPByDataId pre.st m.p.dataId).map (·.creator)
+        | .ready .. => (match pre.st.getOrder oid with
+                        | some o => (findSPByDataId pre.st o.dataId).map (·.creator)
+                        | none => [])
         | _ => []
       let inel := (mine.filter (fun sh => !holders.contains sh.sp)).filter (fun sh =>
         match pre.st.getNode sh.sp, pre.st.getPledge sh.sp with
         | some n, some p => !(ST_SELECT &&& n.status = ST_SELECT && n.reputation ≥ 8000 && !(p.totalStorage - p.usedStorage < (toI64 sh.size)))
         | _, _ => true)
+      -- an order that was handed to providers at creation (or by Ready) got exactly the replicas it asked and paid for
+      let under := match op, post.st.getOrder oid with
+        | .store _, some o => (pre.st.getOrder oid).isNone && (o.shards.length : Int) < o.replica
+        | .ready .., some o => (o.shards.length : Int) < o.replica
+        | _, _ => false
+      (if under then [("C15", s!"clause=placementUnder cls=none rec=order{oid}:{mine.length}<{requested}")] else []) ++
       (if dup then [("C15", s!"clause=placementDistinct cls=none rec=order{oid}:{sps}")] else []) ++
       (if over then [("C15", s!"clause=placementCount cls=none rec=order{oid}:{mine.length}>{requested}")] else []) ++
       (if inel ≠ [] then [("C15", s!"clause=placementEligible cls=none rec=order{oid}:{inel.map (·.sp)}")] else []))
